@@ -76,7 +76,9 @@ func (g *dgen) otherType(t string) string {
 // expr generates an expression that evaluates (when nothing is faulty) to a value of type t.
 func (g *dgen) expr(t string, depth int) *sx.Node {
 	if g.fault() {
-		switch g.r.Intn(6) {
+		switch g.r.Intn(9) {
+		case 6, 7, 8:
+			return g.illTypedOperation(t, depth)
 		case 0:
 			return g.expr(g.otherType(t), depth) // ill-typed
 		case 1:
@@ -165,6 +167,47 @@ func (g *dgen) expr(t string, depth int) *sx.Node {
 		default:
 			return fnCall("string", g.expr([]string{"num", "bool", "str"}[g.r.Intn(3)], depth-1))
 		}
+	}
+}
+
+// illTypedOperation: an operation that would give a t if its operands were of the right types, with
+// exactly one operand of another type - on either side, and for and/or with a left operand that
+// does not decide (so the right operand is reached and must be rejected).
+func (g *dgen) illTypedOperation(t string, depth int) *sx.Node {
+	d := depth - 1
+	if d < 0 {
+		d = 0
+	}
+	two := func(op, want string) *sx.Node {
+		good, bad := g.expr(want, d), g.expr(g.otherType(want), d)
+		if g.r.Intn(2) == 0 {
+			return binOp(op, bad, good)
+		}
+		return binOp(op, good, bad)
+	}
+	switch t {
+	case "num":
+		if g.r.Intn(5) == 0 {
+			return sx.Tag("neg", g.expr(g.otherType("num"), d))
+		}
+		return two([]string{"+", "-", "*", "/", "%"}[g.r.Intn(5)], "num")
+	case "bool":
+		switch g.r.Intn(6) {
+		case 0:
+			return binOp("and", boolLit(true), g.expr(g.otherType("bool"), d))
+		case 1:
+			return binOp("or", boolLit(false), g.expr(g.otherType("bool"), d))
+		case 2:
+			return two([]string{"and", "or", "xor"}[g.r.Intn(3)], "bool")
+		case 3:
+			return two([]string{"<", "<=", ">", ">="}[g.r.Intn(4)], "num")
+		case 4:
+			return two([]string{"==", "!="}[g.r.Intn(2)], []string{"num", "bool", "str"}[g.r.Intn(3)])
+		default:
+			return sx.Tag("not", g.expr(g.otherType("bool"), d))
+		}
+	default:
+		return two("+", "str")
 	}
 }
 
@@ -448,7 +491,9 @@ func (g *dgen) stmt(depth int) *sx.Node {
 	}
 }
 
-var hostCommandNames = []string{"walk", "say", "settings"}
+// "stop" is registered as a host command too (a handler that must never run: <<stop>> is the end of
+// the dialogue, not a dispatch); it is never picked as the name of a generated command.
+var hostCommandNames = []string{"walk", "say", "settings", "stop"}
 
 func (g *dgen) command() *sx.Node {
 	if g.cfg.waitCmd && g.r.Intn(4) == 0 {
@@ -459,6 +504,9 @@ func (g *dgen) command() *sx.Node {
 		names = g.cfg.cmdNames
 	}
 	name := g.pick(names)
+	for name == "stop" {
+		name = g.pick(names)
+	}
 	if !g.cfg.hostCmds || g.fault() {
 		name = "unregistered"
 	}
